@@ -5,7 +5,7 @@ the read path, and the effect of `write` / `load` / `GetOrLoad` / `GetOrLoadLate
 the resource invariant.
 -/
 set_option linter.unusedVariables false
-namespace AsherahVerif.Env
+namespace AsherahVerif.Env.Res
 
 /-- `c.keys.Get` of a never / simple cache as a pure function. -/
 def lookup (kc : KeyCache) (m : KeyMeta) : Option CEntry :=
@@ -184,7 +184,7 @@ theorem cacheGet_eff {T : CTab} {raw : Raw} {h : Nat → Int} {w : World} {c : N
     | some s =>
       simp only [setCache, modify_run, bind_run]
       have hbok := (hi.ents c kc hkc hd).bnd hm
-      have heff := Cache.step_get_eff hbok.inv hbok.live hbok.noexp s (fun _ => false)
+      have heff := Cache.Res.step_get_eff hbok.inv hbok.live hbok.noexp s (fun _ => false)
       have hinv := (Cache.step_inv hbok.inv (.get s) (fun _ => false)).1
       have hi' := hi.updPol c kc (Cache.step kc.pol (.get s) fun _ => false).cache hkc hd (fun _ =>
         ⟨hinv, heff.2.2.1, heff.2.2.2, hbok.slots, by show ∀ s, s ∈ Cache.keysOf _ → _; rw [heff.2.1]; exact hbok.valid,
@@ -305,7 +305,7 @@ theorem cacheSet_core {T : CTab} {raw : Raw} {h2 : Nat → Int} {w2 : World} {c 
       w'.caches[c]? = some kcN ∧ assocGet kcN.ents m' = some e ∧ kcN.mode = kc1.mode := by
   have hok := hi2.ents c kc1 hkc2 hd
   have hb := hok.bnd hm
-  have eff := Cache.step_set_eff hb.inv hb.live hb.noexp s 0 (fun _ => false)
+  have eff := Cache.Res.step_set_eff hb.inv hb.live hb.noexp s 0 (fun _ => false)
   have hinv' := (Cache.step_inv hb.inv (.set s 0) (fun _ => false)).1
   have hslen : kc1.slots.length ≤ slotsA.length := by rcases hA with e | e <;> rw [e] <;> simp
   have hsold : ∀ s', s' < kc1.slots.length → slotsA[s']? = kc1.slots[s']? := by
@@ -537,7 +537,7 @@ are exactly the cached key objects. -/
 theorem close_victims_perm {kc : KeyCache} {keys : List KeyObj} (hok : CacheOK keys kc) (hb : BOK kc) :
     (List.filterMap (fun em => Option.map (fun x => x.obj) (assocGet kc.ents em))
       (List.filterMap (fun x => kc.slots[x.fst]?) (Cache.step kc.pol Cache.Op.close fun x => false).cbs)).Perm (objsOf kc) := by
-  have h1 := Cache.step_close_eff hb.inv hb.live (fun _ => false)
+  have h1 := Cache.Res.step_close_eff hb.inv hb.live (fun _ => false)
   have e1 : List.filterMap (fun x => kc.slots[x.fst]?) (Cache.step kc.pol Cache.Op.close fun x => false).cbs =
       List.filterMap (fun s => kc.slots[s]?) ((Cache.step kc.pol Cache.Op.close fun x => false).cbs.map (·.1)) := by
     rw [List.filterMap_map]; rfl
@@ -1208,4 +1208,4 @@ theorem cacheClose_spec (T : CTab) (H : List Nat) (c : Nat) (hd : T.dead c = fal
       exact this
 
 
-end AsherahVerif.Env
+end AsherahVerif.Env.Res
